@@ -16,7 +16,9 @@ EXPLANATION = (
     "(a decoder can only return a suffix of what it was given) and no `unsafe` is written in the library crates, so a "
     "decoder cannot read outside the slice it receives (Rust's borrow rules); (d) layout nesting: every greedy row "
     "(no length prefix and a value decoder that consumes its whole input, or a struct that contains such a row or a "
-    "tag loop) is the last row of its struct, and no tagged row is greedy, so no field can swallow its successor.")
+    "tag loop) is the last row of its struct, and no tagged row is greedy, so no field can swallow its successor; "
+    "(e) in every Length::deserialize impl the announced length returned on Ok is data-flow independent of the length "
+    "of the input slice (it is a constant or computed from the prefix bytes), so appending bytes cannot change it.")
 RULE = ("expression equality of E::decode's argument with Index(payload, RangeTo{length}); of the Ok remainder with "
         "Index(payload, RangeFrom{length - len(decode remainder)}); K-suffix on all impls; unsafe-site list empty "
         "(external macro expansions excepted); greedy-row placement over the extracted layout tables.")
@@ -57,6 +59,65 @@ def run(ctx, chk):
                         u.get("sp"), nontrivial=False)
         chk.require("unsafe" in c.data, "C14-c/unsafe-facts", cname, "driver produced no unsafe-site list", "", nontrivial=False)
     nesting(ctx, chk)
+    announced(chk, crates2, sc)
+
+
+def depends_on_len(pr, e, seen=None, depth=0):
+    """Does the value expression e depend on the *length* of some slice/vector (transitively through
+    multiply-assigned locals)?  Control dependence is deliberately not followed: `if data.len() < N
+    {Err}` guards are exactly how a decoder is supposed to use the length."""
+    seen = seen if seen is not None else set()
+    for x in walk(e):
+        if x[0] == "call" and x[1] in LEN_CALLS:
+            return x
+        if x[0] == "un" and x[1] == "PtrMetadata":
+            return x
+        if x[0] == "var" and x[2] not in seen and depth < 20:
+            seen.add(x[2])
+            for d in pr.tr.defs.get(x[2], []):
+                if d[2] == "assign":
+                    r = depends_on_len(pr, pr.vx.rvalue(d[3]["rv"], d[0]), seen, depth + 1)
+                    if r:
+                        return r
+                elif d[2] == "call":
+                    for a in d[3]["args"]:
+                        r = depends_on_len(pr, pr.vx.operand(a, d[0]), seen, depth + 1)
+                        if r:
+                            return r
+    return None
+
+
+def announced(chk, crates, sc):
+    """(e) the announced length is a function of the prefix bytes only."""
+    n = 0
+    for bid, b in sorted(sc.items()):
+        r = b.raw
+        tr = r.get("impl_trait") or r.get("in_trait")
+        if r["defkind"] != "AssocFn" or r.get("name") != "deserialize" or tr != "zvt_builder::length::Length":
+            continue
+        pr = make_prover(b, crates)
+        inst = rules_c02.short(bid)
+        for i in sorted(b.reachable(0)):
+            for st in b.blocks[i]["stmts"]:
+                if st["s"] == "assign" and st["p"]["l"] == 0 and not st["p"]["p"]:
+                    e = pr.vx.rvalue(st["rv"], i)
+                    if e[0] == "agg" and e[1] == "core::result::Result::Ok" and e[2] and e[2][0][0] == "agg" and \
+                            e[2][0][1] == "tuple" and len(e[2][0][2]) == 2:
+                        n += 1
+                        ln = e[2][0][2][0]
+                        rest = strip_ref(e[2][0][2][1])
+                        if rest[0] == "path" and rest[1] == pr.vx.root_name(1) and not rest[2]:
+                            # prefix-less style (Empty, Temperature): nothing is consumed, the value takes what
+                            # the enclosing bound leaves - its placement is what clause (d) checks
+                            chk.ok("C14-e/length-from-prefix", inst, "prefix-less style (rest == input): governed by (d)",
+                                   st.get("sp") or b.sp(), nontrivial=False)
+                            continue
+                        bad = depends_on_len(pr, ln)
+                        chk.require(bad is None, "C14-e/length-from-prefix", inst,
+                                    "the announced length %s is computed from the number of bytes that follow (%s): the decoded "
+                                    "value then depends on trailing data" % (show(ln)[:70], show(bad)[:50] if bad else ""),
+                                    "length derives from the prefix bytes / a constant only", st.get("sp") or b.sp())
+    chk.floor("Length::deserialize Ok-returns checked for prefix-only lengths", n, 8)
 
 
 def framing(chk, crates):
